@@ -117,3 +117,102 @@ def gen_deep_history(w, rng, tier):
             w.do(f"restart {rng.choice(sqls)}")
     W.quiesce(w)
     return w
+
+
+def gen_rollback_restart_history(w, rng, tier, restarts=True):
+    """C11: a multi-epoch rollback, then (optionally) a restart of the persistent client, then fresh races on the
+    epochs the rollback went through — everything a restart must not change.  The random draws do not depend on
+    `restarts`, so the same seed gives the same script with and without them."""
+    n = 3
+    sql_client = rng.randrange(n)
+    backends = ["sql" if c == sql_client or rng.random() < 0.3 else "mem" for c in range(n)]
+    admins = sorted(set([0] + rng.sample(range(n), rng.randint(1, n))))
+    retention = rng.choice([5, 5, 3])
+    w.meta = {"n": n, "backends": backends, "admins": admins, "retention": retention, "p_rewrap": 0.0, "p_leave": 0.0,
+              "regime": "rollback-restart", "apply": {c: "echo" for c in range(n)}}
+    w.setup_group(n, backends, admins, retention)
+    everyone = list(range(n))
+    ts, tok = 100, 0
+
+    def commit(c, st, deliver_to):
+        e = w.publish(f"selfupdate {c} {st}", "commit", c)
+        if e is not None:
+            w.events[e]["apply"] = "echo"
+            for d in deliver_to:
+                w.deliver(d, e)
+        return e
+
+    def maybe_restart(p):
+        x = rng.random()
+        if x < p and restarts:
+            w.do(f"restart {sql_client}")
+
+    for _ in range(rng.choice([0, 1, 2])):
+        ts += 10
+        commit(rng.choice(everyone), ts, everyone)
+    # fork of depth d: the persistent client follows the worse chain first
+    others = [c for c in everyone if c != sql_client]
+    x_author = rng.choice(others)
+    y_author = rng.choice([c for c in everyone if c != x_author])
+    base = ts + 20
+    d = rng.choice([1, 2, 2, 3]) if retention >= 3 else rng.choice([1, 2])
+    x = commit(x_author, base, [])
+    followers = [c for c in everyone if c != x_author]
+    st = base + 3
+    chain = []
+    for i in range(d):
+        y = commit(y_author, st, followers)
+        if y is None:
+            break
+        chain.append(y); st += 5
+        maybe_restart(0.15)
+    if x is not None:
+        for c in [x_author] + followers:
+            w.deliver(c, x)
+        for y in chain:
+            w.deliver(x_author, y)
+    maybe_restart(0.8)
+    ts = st + 10
+    # fresh races on the following epochs: worse first, better late, at everybody but the committers themselves
+    for rd in range(rng.choice([1, 2, 2, 3])):
+        a, b = rng.sample(everyone, 2)
+        base = ts + 10
+        ea = w.publish(f"selfupdate {a} {base + 4}", "commit", a)       # worse (later)
+        eb = w.publish(f"selfupdate {b} {base}", "commit", b)           # better (earlier)
+        for e in (ea, eb):
+            if e is not None:
+                w.events[e]["apply"] = "echo"
+        if ea is not None and eb is not None:
+            for c in everyone:
+                first, second = (ea, eb) if c != b else (eb, ea)
+                w.deliver(c, first)
+                if c == sql_client:
+                    maybe_restart(0.3)
+                w.deliver(c, second)
+        ts = base + 10
+        if rng.random() < 0.5:
+            tok += 1; ts += 1
+            sender = rng.choice(everyone)
+            e = w.publish(f"send {sender} {tok} {ts}", "app", sender)
+            if e is not None:
+                for c in everyone:
+                    w.deliver(c, e)
+        maybe_restart(0.3)
+    W.quiesce(w)
+    return w
+
+
+def gen_rollback_restart_pair(wid, seed_rng, tier):
+    import random
+    r = seed_rng.random()
+    pair = []
+    for restarts in (False, True):
+        w = W.World(f"{wid}{'r' if restarts else 'n'}")
+        try:
+            gen_rollback_restart_history(w, random.Random(r), tier, restarts=restarts)
+        except RuntimeError as e:
+            w.crashed = str(e)
+        finally:
+            w.close()
+        pair.append(w)
+    return pair
